@@ -150,8 +150,8 @@ theorem accepted_tx_is_consumable (b : Bytes) (t : Tx) (rest : Bytes) (hp : Tx.p
     Tx.weight t = 3 * (Tx.ser false t).length + (Tx.ser true t).length ∧
     Tx.parse (Tx.ser false t) = .ok (t.strip, []) ∧ Tx.parse (Tx.ser true t) = .ok (t, []) := by
   obtain ⟨hv, _⟩ := tx_ser_parse b t rest hp
-  refine ⟨fun w => tx_size_eq w t hv, ?_, ?_, ?_⟩
-  · simp only [Tx.weight, tx_size_eq _ t hv]
+  refine ⟨fun w => tx_size_eq w t hv.struct, ?_, ?_, ?_⟩
+  · simp only [Tx.weight, tx_size_eq _ t hv.struct]
   · simpa using tx_parse_ser_stripped t [] hv
   · simpa using tx_parse_ser t [] hv
 
